@@ -262,7 +262,7 @@ pub fn check_trait<S: Cancel + crate::attacks::Attack>(c: &Case, ctx: &mut CaseC
             // transcript starts from the session's initial sponge), presented with the false values it claims
             let g0 = &sess.groups[0];
             match S::forge(&sess, &g0.polys, &g0.point, sel >> 8) {
-                Some(f) if f.guard_log2.map(|lp| lp <= -40.0).unwrap_or(true) => {
+                Some(f) if f.point.is_none() && f.guard_log2.map(|lp| lp <= -40.0).unwrap_or(true) => {
                     let truth0: Vec<S::F> = g0.polys.iter().map(|i| sess.true_value(*i, &g0.point)).collect();
                     if f.claimed == truth0 {
                         variant = 0;
